@@ -235,7 +235,39 @@ macro_rules! alias_mod {
                         }
                     }
                 }
-                json!({"ev": "alias_exhaustive", "wt": NAME, "profile": profile, "maxlen": maxlen, "vectors": total, "built": acc.built, "rejected": acc.rejected,
+                // invalid-weight injection: every vector of length <= 4 over the alphabet above with one entry replaced, at
+                // every position, by each weight the documentation rejects (negative, NaN, infinite, MIN)
+                let mut injected = 0u64;
+                {
+                    let invalid: Vec<W> = if IS_FLOAT {
+                        vec![f64::NAN as W, (-f64::NAN) as W, f64::INFINITY as W, f64::NEG_INFINITY as W, (-1i8) as W, (-($eps as f64) * 1e-30) as W, <$W>::MIN]
+                    } else if (<$W>::MIN as i128) < 0 {
+                        vec![(-1i8) as W, <$W>::MIN, (<$W>::MIN as i128 / 2) as W]
+                    } else {
+                        vec![]
+                    };
+                    for len in 1..=maxlen.min(4) {
+                        if invalid.is_empty() {
+                            break;
+                        }
+                        let cap: W = if IS_FLOAT { (<$W>::MAX as f64 / len as f64) as W } else { ((<$W>::MAX as u128) / len as u128) as W };
+                        let alpha: Vec<W> = if IS_FLOAT { vec![0 as W, 1 as W, 3 as W, (cap as f64 * 0.25) as W] } else { vec![0 as W, 1 as W, 3 as W, cap] };
+                        let k = alpha.len();
+                        for code in 0..k.pow(len as u32) {
+                            let base: Vec<W> = (0..len).map(|p| alpha[(code / k.pow(p as u32)) % k]).collect();
+                            for pos in 0..len {
+                                for bad in &invalid {
+                                    let mut ws = base.clone();
+                                    ws[pos] = *bad;
+                                    total += 1;
+                                    injected += 1;
+                                    check(&ws, &mut acc, profile);
+                                }
+                            }
+                        }
+                    }
+                }
+                json!({"ev": "alias_exhaustive", "wt": NAME, "profile": profile, "maxlen": maxlen, "vectors": total, "invalid_injected": injected, "built": acc.built, "rejected": acc.rejected,
                        "table_checks": acc.table_checks, "weights_checks": acc.weights_checks, "violations": acc.nviol})
             }
 
